@@ -90,6 +90,10 @@ def shapes(tier, seed):
     for a, b in ((X, X2), (("sel", X, ("gt", ("ref", "a"), ("lit", "$k1"))), ("sel", X2, ("gt", ("ref", "a"), ("lit", "$k1")))),
                  (("calc", X, "d", ("neg", ("ref", "a"))), ("calc", X2, "d", ("neg", ("ref", "a"))))):
         for top in (lambda n: n, lambda n: ("dedup", n), lambda n: ("slice", n, 0, 3), lambda n: ("chain", n, Y)):
+            try:
+                cols_of(top(("chain", a, b)), LEAVES)
+            except IllTyped:
+                continue
             for payload in ("seq", "gen"):
                 out.append({"prog": top(("chain", a, b)), "params": {"$k1": [None, None]} if "$k1" in repr(a) else {}, "cons": [], "payload": payload, "n": 2})
     for f, second in later_pairs():
